@@ -1043,8 +1043,12 @@ impl<'a, R: ?Sized + std::io::BufRead> Tokenizer<'a, R> {
                                     TokenEndReason::NonNewLineBlank => state.append_char(' '),
                                     TokenEndReason::SpecifiedTerminatingChar => {
                                         // We hit the end brace we were looking for but did not
-                                        // yet consume it. Do so now.
-                                        state.append_char(self.next_char()?.unwrap());
+                                        // yet consume it. Do so now. (After a here-document inside the
+                                        // braces the input may already be exhausted.)
+                                        state.append_char(
+                                            self.next_char()?
+                                                .ok_or(TokenizerError::UnterminatedVariable)?,
+                                        );
                                         break;
                                     }
                                     TokenEndReason::EndOfInput => {
